@@ -1,21 +1,86 @@
-(* C03 - syntax faults, family A: the procedure around the faulty body, the program around the procedure, `parse`. *)
+(* C03 - syntax faults: the declaration around the fault, the program around the declaration, `parse`. *)
 From Coq Require Import List Lia Arith Bool.
-From Spl Require Import Spec.Grammar Model.Parser Proofs.GrammarBase Proofs.GrammarExpr Proofs.GrammarStmt Proofs.GrammarProg
-  Proofs.SynFaults Proofs.SynFaultsStmt.
+From Spl Require Import Spec.Grammar Model.Parser Proofs.GrammarBase Proofs.GrammarExpr Proofs.GrammarStmt Proofs.GrammarProg.
+From Spl Require Import Proofs.SynFaults Proofs.SynFaultsStmt.
 Import ListNotations.
 Local Open Scope nat_scope.
 
 Ltac side := first [lia | assumption].
 
+(* what stands behind a global declaration: `proc`, `type`, or the end *)
+Definition is_glob (kd : kind) : bool := match kd with KProc | KType | Eof => true | _ => false end.
+
+Lemma decls_glob ds ceof : fol is_glob (flat_map fl_decl ds ++ cm ceof ++ [Eof]).
+Proof.
+  destruct ds as [|d ds]; cbn [flat_map app].
+  - apply fol_here; reflexivity.
+  - destruct d as [c1 c2 x c3 t c4|c1 c2 x c3 ps c4 c5 vs b c6]; cbn [fl_decl]; rewrite <- !app_assoc; cbn [app]; apply fol_here; reflexivity.
+Qed.
+
 Section FProg.
 Variable toks : list token.
 Notation at_ := (at_ toks).
 
-Lemma ffl_decl_len c1 c2 x c3 ps c4 c5 vs b c6 :
-  len (ffl_decl (FProc c1 c2 x c3 ps c4 c5 vs b c6)) =
-  len c1 + 1 + len c2 + 1 + len c3 + 1 + len (fl_sep fl_param ps) + len c4 + 1 + len c5 + 1 +
-  len (flat_map fl_vardecl vs) + len (ffl_stmts b) + len c6 + 1.
-Proof. cbn [ffl_decl]. flens'. lia. Qed.
+(* ---- statement sequences followed by anything that is not `else` (GrammarStmt.v asks for `}`) ---- *)
+Lemma stmts_ok_g b : forall k r rest f, r <= k -> 6 * len (fl_stmts b) + 7 <= f -> else_oks b = true ->
+  at_ k (fl_stmts b ++ rest) -> fol noelse rest ->
+  steps (stmt_ref toks f) (mk k r) (x_stmts (k - r) b) (mk (k + len (fl_stmts b)) r).
+Proof.
+  induction b as [|s b IH]; intros k r rest f Hr Hf Hok H Hfol.
+  - cbn [fl_stmts length x_stmts]. rewrite Nat.add_0_r. constructor.
+  - cbn [fl_stmts] in *. rewrite app_length in *. flat_in H.
+    cbn [else_oks] in Hok. apply andb_prop in Hok. destruct Hok as [Hok1 Hok2].
+    pose proof (stmt_len_pos s) as Hp.
+    assert (Hfs : open_if s = true -> fol noelse (fl_stmts b ++ rest)).
+    { intros _. destruct b as [|s1 b1]; cbn [fl_stmts app]; [exact Hfol|].
+      destruct (stmt_head s1) as (c & kd & tl & -> & Hs & Hk). rewrite <- !app_assoc. cbn [app].
+      apply fol_here; [exact Hs|]. destruct kd; try discriminate; reflexivity. }
+    cbn [x_stmts]. eapply steps_cons with (s1 := mk (k + len (fl_stmt s)) r).
+    + unfold stmt_ref. comb. rewrite (proj1 (stmt_all toks) s k k (fl_stmts b ++ rest) f (le_n _)) by side. norm. now rewrite Nat.sub_diag.
+    + cbn [pos]. lia.
+    + apply at_app in H. specialize (IH (k + len (fl_stmt s)) r rest f ltac:(lia) ltac:(lia) Hok2 H Hfol).
+      replace (k + len (fl_stmt s) - r) with (k - r + len (fl_stmt s)) in IH by lia.
+      now rewrite Nat.add_assoc.
+Qed.
+
+(* a statement parser at `proc`, `type` or the end fails *)
+Lemma stmt_no_glob k r c kd rest fuel : at_ k (cm c ++ kd :: rest) -> sig kd = true -> is_glob kd = true -> 2 <= fuel ->
+  exists e, p_stmt toks fuel (mk k r) = PErr e.
+Proof.
+  intros H Hs Hg Hf. destruct fuel as [|f]; [lia|]. rewrite p_stmt_S. comb.
+  assert (Hid : is_ident kd = false) by (destruct kd; try discriminate; reflexivity).
+  rewrite (p_tag_no toks (is_k Semic) k r _ _ _ H Hs) by (destruct kd; try discriminate; reflexivity).
+  rewrite (p_tag_no toks (is_k KIf) k r _ _ _ H Hs) by (destruct kd; try discriminate; reflexivity).
+  rewrite (p_tag_no toks (is_k KWhile) k r _ _ _ H Hs) by (destruct kd; try discriminate; reflexivity).
+  rewrite (p_tag_no toks (is_k LCurly) k r _ _ _ H Hs) by (destruct kd; try discriminate; reflexivity).
+  rewrite (call_no_ident toks k r _ _ _ f H Hs Hid).
+  rewrite (assign_no_ident toks k r _ _ _ f H Hs Hid ltac:(lia)).
+  unfold p_restore, p_comments, p_ignore1. comb. rewrite (comments_at_ok toks _ _ _ _ H Hs).
+  apply at_cm in H. unfold la_stmt, la_global. rewrite !(la_tag_at toks _ _ [] _ _ H Hs).
+  replace (match kd with KProc | KType | Eof => true | _ => false end) with true by (symmetry; exact Hg).
+  rewrite !orb_true_r. eexists; reflexivity.
+Qed.
+
+(* no variable declaration starts where a statement sequence followed by `proc`, `type` or the end starts *)
+Lemma vardecl_no_glob b rest k r fuel : at_ k (fl_stmts b ++ rest) -> fol is_glob rest ->
+  exists e, vardecl_ref toks fuel (mk k r) = PErr e.
+Proof.
+  intros H Hfol.
+  assert (Hh : exists c kd tl, fl_stmts b ++ rest = cm c ++ kd :: tl /\ sig kd = true /\ is_k KVar kd = false /\ la_var_dec toks k = true).
+  { destruct b as [|s b]; cbn [fl_stmts app] in *.
+    - destruct Hfol as (c & kd & tl & -> & Hs & Hg). exists c, kd, tl. split; [reflexivity|]. split; [exact Hs|].
+      split; [destruct kd; try discriminate; reflexivity|].
+      unfold la_var_dec, la_stmt, la_global. rewrite !(la_tag_at toks _ _ _ _ _ H Hs).
+      replace (match kd with KProc | KType | Eof => true | _ => false end) with true by (symmetry; exact Hg).
+      rewrite !orb_true_r. reflexivity.
+    - rewrite <- app_assoc in H. pose proof (la_var_dec_stmt toks s _ _ H) as Hla.
+      destruct (stmt_head s) as (c & kd & tl & -> & Hs & Hk). rewrite <- !app_assoc. cbn [app].
+      eexists c, kd, _. split; [reflexivity|]. split; [exact Hs|]. split; [destruct kd; try discriminate; reflexivity | exact Hla]. }
+  destruct Hh as (c & kd & tl & E & Hs & Hk & Hla). rewrite E in H.
+  unfold vardecl_ref, p_vardecl. comb. rewrite (p_comments_at toks k k _ _ _ H Hs). norm. apply at_cm in H.
+  rewrite (p_tag_no toks (is_k KVar) _ k [] _ _ H Hs Hk).
+  unfold p_ignore1. cbn [pos]. rewrite Hla. eexists; reflexivity.
+Qed.
 
 (* no variable declaration starts where the faulty body starts *)
 Lemma fstmts_head b c6 rest : exists c kd tl, ffl_stmts b ++ cm c6 ++ RCurly :: rest = cm c ++ kd :: tl /\ sig kd = true /\
@@ -26,12 +91,12 @@ Proof.
   - destruct (stmt_head s) as (c & kd & tl & -> & Hs & Hk). rewrite <- !app_assoc. cbn [app]. now eexists c, kd, _.
 Qed.
 
-(* look_ahead::var_dec in front of the faulty body: it depends on the first two significant tokens only, and those are
-   the first tokens of a statement with or without its `;` *)
+(* look_ahead::var_dec in front of the faulty body: it depends on the first two significant tokens only *)
 Lemma la_var_dec_fstmt s Z k : at_ k (ffl_stmt s ++ Z) -> la_var_dec toks k = true.
 Proof.
   intros H. unfold la_var_dec, la_stmt, la_global.
-  destruct s as [v c1 e|c1 f c2 a c3|c1 c2 e c3 t|c1 c2 e c3 t c4 s'|c1 c2 e c3 t c4 s'|c1 c2 e c3 b|c1 b c2]; cbn [ffl_stmt] in H; flat_in H.
+  destruct s as [v c1 e|c1 f c2 a c3|c1 f c2 a c4|c1 c2 e t|c1 c2 e t c4 s'|c1 c2 e b
+                |c1 c2 e c3 t|c1 c2 e c3 t c4 s'|c1 c2 e c3 t c4 s'|c1 c2 e c3 b|c1 b c2]; cbn [ffl_stmt] in H; flat_in H.
   - rewrite fl_var_head in H. flat_in H.
     destruct (var_tl_next v c1 Assign (fl_cmp e ++ Z) eq_refl) as (c & kd & Z' & E & Hs & Hk).
     rewrite E in H. rewrite !(la_tag_at toks _ _ _ _ _ H eq_refl), !(la_ident_then_at toks _ _ _ _ _ H eq_refl).
@@ -39,6 +104,11 @@ Proof.
     destruct Hk as [-> | ->]; reflexivity.
   - rewrite !(la_tag_at toks _ _ _ _ _ H eq_refl), !(la_ident_then_at toks _ _ _ _ _ H eq_refl).
     cbn [is_ident]. apply at_cm_cons in H. rewrite !(la_tag_at toks _ _ _ _ _ H eq_refl). reflexivity.
+  - rewrite !(la_tag_at toks _ _ _ _ _ H eq_refl), !(la_ident_then_at toks _ _ _ _ _ H eq_refl).
+    cbn [is_ident]. apply at_cm_cons in H. rewrite !(la_tag_at toks _ _ _ _ _ H eq_refl). reflexivity.
+  - rewrite !(la_tag_at toks _ _ _ _ _ H eq_refl). reflexivity.
+  - rewrite !(la_tag_at toks _ _ _ _ _ H eq_refl). reflexivity.
+  - rewrite !(la_tag_at toks _ _ _ _ _ H eq_refl). reflexivity.
   - rewrite !(la_tag_at toks _ _ _ _ _ H eq_refl). reflexivity.
   - rewrite !(la_tag_at toks _ _ _ _ _ H eq_refl). reflexivity.
   - rewrite !(la_tag_at toks _ _ _ _ _ H eq_refl). reflexivity.
@@ -59,70 +129,238 @@ Proof.
   unfold p_ignore1. cbn [pos]. rewrite Hla. eexists; reflexivity.
 Qed.
 
-(* ---- the faulty procedure ---- *)
-Lemma fdecl_ok d k rest fuel : decl_ok (orig_decl d) = true -> 6 * len (ffl_decl d) + 14 <= fuel -> at_ k (ffl_decl d ++ rest) ->
-  fol gapfol (after_decl d rest) ->
-  p_gdecl toks fuel (mk k k) = POk (mk (k + len (ffl_decl d)) k) (fx_decl d).
+(* ---- the head of a procedure declaration, whatever its body does ---- *)
+Definition body_p (fuel : nat) : parser (list (vardecl * nat) * (list (stmt * nat) * option token)) :=
+  p_pair (p_many0 fuel (vardecl_ref toks fuel))
+         (p_pair (p_many0 fuel (stmt_ref toks fuel)) (p_expect (p_tag toks (is_k RCurly)) (MissingClosing 125%N))).
+
+Lemma p_procdecl_body fuel s :
+  p_procdecl toks fuel s =
+  p_map (fun r => let '((doc, (_, (name, (_, (params, (_, (_, (vars, (stmts, _))))))))), inf) := r in
+                  {| pd_doc := doc; pd_name := name; pd_params := params; pd_vars := vars; pd_stmts := stmts; pd_info := inf |})
+    (p_info (p_pair (p_comments toks)
+            (p_pair (p_tag toks (is_k KProc))
+            (p_pair (p_expect (p_ident toks) (ExpectedToken s_identifier))
+            (p_pair (p_expect (p_tag toks (is_k LParen)) (MissingOpening 40%N))
+            (p_pair (p_alt (p_map (fun _ => []) (p_peek_la (la_tag toks (fun k => match k with RParen | LCurly | Eof => true | _ => false end))))
+                           (p_list toks fuel (p_paramdecl toks fuel)))
+            (p_pair (p_expect (p_tag toks (is_k RParen)) (MissingClosing 41%N))
+            (p_pair (p_expect (p_tag toks (is_k LCurly)) (MissingOpening 123%N))
+                    (body_p fuel))))))))) s.
+Proof. reflexivity. Qed.
+
+Lemma prochead_len c1 c2 x c3 ps c4 c5 :
+  len (fl_prochead c1 c2 x c3 ps c4 c5) = len c1 + 1 + len c2 + 1 + len c3 + 1 + len (fl_sep fl_param ps) + len c4 + 1 + len c5 + 1.
+Proof. flens. lia. Qed.
+
+Lemma prochead_ok c1 c2 x c3 ps c4 c5 Z k fuel s' vars stmts rc :
+  at_ k (fl_prochead c1 c2 x c3 ps c4 c5 ++ Z) -> len (fl_prochead c1 c2 x c3 ps c4 c5) <= fuel ->
+  body_p fuel (mk (k + len (fl_prochead c1 c2 x c3 ps c4 c5)) k) = POk s' (vars, (stmts, rc)) ->
+  p_gdecl toks fuel (mk k k) =
+  POk (set_ebuf s' [])
+      (GProc {| pd_doc := c1; pd_name := Some (x_ident (len c1 + 1) c2 x);
+                pd_params := x_sep fl_param x_param (len c1 + 1 + len c2 + 1 + len c3 + 1) ps;
+                pd_vars := vars; pd_stmts := stmts;
+                pd_info := {| i_s := 0; i_e := pos s' - k; i_errs := ebuf s' |} |}).
 Proof.
-  intros Hok Hf H Hgap. destruct d as [c1 c2 x c3 ps c4 c5 vs b c6].
-  pose proof (ffl_decl_len c1 c2 x c3 ps c4 c5 vs b c6) as Hl. cbn [ffl_decl] in H. flat_in H.
-  cbn [orig_decl decl_ok] in Hok. cbn [after_decl] in Hgap.
+  intros H Hf Hbody. pose proof (prochead_len c1 c2 x c3 ps c4 c5) as Hl. rewrite Hl in *. unfold fl_prochead in H. flat_in H.
   unfold p_gdecl, p_typedecl. comb.
   rewrite (p_comments_at toks k k _ _ _ H eq_refl). norm.
-  rewrite p_procdecl_eq. comb. rewrite (p_comments_at toks k k _ _ _ H eq_refl). norm. apply at_cm in H.
+  rewrite p_procdecl_body. comb. rewrite (p_comments_at toks k k _ _ _ H eq_refl). norm. apply at_cm in H.
   rewrite (p_tag_no toks (is_k KType) _ k [] _ _ H eq_refl eq_refl).
   destruct (p_tag_at0 toks (is_k KProc) _ k _ _ H eq_refl) as (t0 & _ & E0). rewrite E0; ifs; norm. apply at_cons in H.
   rewrite (p_ident_at toks _ k _ _ _ H) by lia. norm. apply at_cm_cons in H.
   destruct (p_tag_at toks (is_k LParen) _ k _ _ _ H eq_refl) as (t1 & _ & E1). rewrite E1; ifs; norm.
   apply at_cm_cons in H.
   assert (Hb : match ps with Some (_, l) => len l < fuel | None => True end).
-  { destruct ps as [[p l]|]; [|exact I]. pose proof (tail_len_le fl_param l). cbn [fl_sep] in Hl. rewrite app_length in Hl. lia. }
+  { destruct ps as [[p l]|]; [|exact I]. pose proof (tail_len_le fl_param l). cbn [fl_sep] in Hf. rewrite app_length in Hf. lia. }
   destruct ps as [[p l]|].
   + destruct (param_head p) as (c & kd & tl & E & Hs & Hk). pose proof H as H0. cbn [fl_sep] in H0. rewrite E in H0. flat_in H0.
     rewrite (la_tag_at toks _ _ _ _ _ H0 Hs), Hk. norm.
     rewrite (list_ok toks fl_param x_param (p_paramdecl toks fuel) (len (fl_sep fl_param (Some (p, l))))
                (param_ok toks fuel (len (fl_sep fl_param (Some (p, l)))) ltac:(lia)) p l (k + len c1 + 1 + len c2 + 1 + len c3 + 1) k
-               (cm c4 ++ RParen :: cm c5 ++ LCurly :: flat_map fl_vardecl vs ++ ffl_stmts b ++ cm c6 ++ RCurly :: rest)
+               (cm c4 ++ RParen :: cm c5 ++ LCurly :: Z)
                fuel ltac:(lia) (le_n _) Hb H (fol_here (is_k RParen) c4 RParen _ eq_refl eq_refl)).
     norm. apply at_app in H.
     destruct (p_tag_at toks (is_k RParen) _ k _ _ _ H eq_refl) as (t2 & _ & E2). rewrite E2; ifs; norm.
     apply at_cm_cons in H.
     destruct (p_tag_at toks (is_k LCurly) _ k _ _ _ H eq_refl) as (t3 & _ & E3). rewrite E3; ifs; norm.
-    apply at_cm_cons in H.
-    match type of H with at_ ?k1 _ =>
-      pose proof (vardecls_steps toks vs k1 k _ fuel ltac:(lia) ltac:(lia) H) as Hst1;
-      pose proof (x_vardecls_len (k1 - k) vs) as Hn1; apply at_app in H;
-      destruct (fvardecl_no b c6 rest (k1 + len (flat_map fl_vardecl vs)) k fuel H) as (e1 & Ee1) end.
-    rewrite (many0_steps' _ _ _ _ _ fuel Hst1 Ee1 ltac:(lia)). norm.
-    match type of H with at_ ?k2 _ =>
-      pose proof (fstmts_ok toks b k2 k _ fuel ltac:(lia) ltac:(lia) Hok H (fol_here (is_k RCurly) c6 RCurly rest eq_refl eq_refl) Hgap) as Hst2;
-      pose proof (fx_stmts_len (k2 - k) b) as Hn2; apply at_app in H end.
-    match type of H with at_ ?k3 _ =>
-      destruct (stmt_no_rcurly toks k3 k3 _ _ fuel H ltac:(lia)) as (e2 & Ee2);
-      assert (Ee2' : stmt_ref toks fuel (mk k3 k) = PErr (set_refp e2 k)) by (unfold stmt_ref; comb; now rewrite Ee2) end.
-    rewrite (many0_steps' _ _ _ _ _ fuel Hst2 Ee2' ltac:(lia)). norm.
-    destruct (p_tag_at toks (is_k RCurly) _ k _ _ _ H eq_refl) as (t4 & _ & E4). rewrite E4; ifs; norm.
-    rewrite !Nat.sub_diag. cbn [fx_decl]. unfold mkinfo. rewrite Hl. cbn [fl_sep]. fteq.
+    match goal with |- context [body_p fuel (mk ?a k)] =>
+      match type of Hbody with body_p fuel (mk ?b k) = _ => replace a with b by (cbn [fl_sep length]; lia) end end.
+    rewrite Hbody. norm. rewrite !Nat.sub_diag. unfold x_ident, mkinfo. teq.
   + cbn [fl_sep app length] in *.
     rewrite (la_tag_at toks _ _ _ _ _ H eq_refl). norm.
     destruct (p_tag_at toks (is_k RParen) _ k _ _ _ H eq_refl) as (t2 & _ & E2). rewrite E2; ifs; norm.
     apply at_cm_cons in H.
     destruct (p_tag_at toks (is_k LCurly) _ k _ _ _ H eq_refl) as (t3 & _ & E3). rewrite E3; ifs; norm.
+    match goal with |- context [body_p fuel (mk ?a k)] =>
+      match type of Hbody with body_p fuel (mk ?b k) = _ => replace a with b by (cbn [fl_sep length]; lia) end end.
+    rewrite Hbody. norm. rewrite !Nat.sub_diag. cbn [x_sep]. unfold x_ident, mkinfo. teq.
+Qed.
+
+(* ---- the bodies ---- *)
+(* the fault is in a statement of the body *)
+Lemma body_stmts vs b c6 k0 k rest fuel : k0 <= k -> 6 * (len (flat_map fl_vardecl vs) + len (ffl_stmts b)) + 13 <= fuel ->
+  else_oks (orig_stmts b) = true -> at_ k (flat_map fl_vardecl vs ++ ffl_stmts b ++ cm c6 ++ RCurly :: rest) ->
+  gapc (gk_stmts b) (after_stmts b (cm c6 ++ RCurly :: rest)) ->
+  exists t, body_p fuel (mk k k0) =
+    POk (mk (k + len (flat_map fl_vardecl vs) + len (ffl_stmts b) + len c6 + 1) k0)
+        (x_vardecls (k - k0) vs, (fx_stmts (k - k0 + len (flat_map fl_vardecl vs)) b, Some t)).
+Proof.
+  intros Hr Hf Hok H Hgap. unfold body_p. comb.
+  pose proof (vardecls_steps toks vs k k0 _ fuel Hr ltac:(lia) H) as Hst1.
+  pose proof (x_vardecls_len (k - k0) vs) as Hn1. apply at_app in H.
+  destruct (fvardecl_no b c6 rest (k + len (flat_map fl_vardecl vs)) k0 fuel H) as (e1 & Ee1).
+  rewrite (many0_steps' _ _ _ _ _ fuel Hst1 Ee1 ltac:(lia)). norm.
+  pose proof (fstmts_ok toks b (k + len (flat_map fl_vardecl vs)) k0 _ fuel ltac:(lia) ltac:(lia) Hok H (fol_here (is_k RCurly) c6 RCurly rest eq_refl eq_refl) Hgap) as Hst2.
+  pose proof (fx_stmts_len (k + len (flat_map fl_vardecl vs) - k0) b) as Hn2. apply at_app in H.
+  match type of H with GrammarBase.at_ _ ?k3 _ =>
+    destruct (stmt_no_rcurly toks k3 k3 _ _ fuel H ltac:(lia)) as (e2 & Ee2);
+    assert (Ee2' : stmt_ref toks fuel (mk k3 k0) = PErr (set_refp e2 k0)) by (unfold stmt_ref; comb; now rewrite Ee2) end.
+  rewrite (many0_steps' _ _ _ _ _ fuel Hst2 Ee2' ltac:(lia)). norm.
+  destruct (p_tag_at toks (is_k RCurly) _ k0 _ _ _ H eq_refl) as (t4 & _ & E4). rewrite E4; ifs; norm.
+  exists t4. replace (k + len (flat_map fl_vardecl vs) - k0) with (k - k0 + len (flat_map fl_vardecl vs)) by lia. reflexivity.
+Qed.
+
+(* the faulty variable declaration: `expect(;)` fails on the token behind it *)
+Lemma fvardecl_ok fuel d1 d2 y d3 t k rest : len (ffl_var d1 d2 y d3 t) <= fuel -> at_ k (ffl_var d1 d2 y d3 t ++ rest) ->
+  fol gapfol rest ->
+  p_vardecl toks fuel (mk k k) = POk (mk (k + len (ffl_var d1 d2 y d3 t)) k) (fxg_var e_real d1 d2 y d3 t).
+Proof.
+  intros Hf H Hfol. unfold ffl_var in H. flat_in H.
+  assert (Hl : len (ffl_var d1 d2 y d3 t) = len d1 + 1 + len d2 + 1 + len d3 + 1 + len (fl_type t)) by (flens; lia).
+  destruct Hfol as (cg & kg & restg & -> & Hsg & Hkg). unfold gapfol in Hkg. apply andb_prop in Hkg. destruct Hkg as [_ Hns].
+  apply negb_true_iff in Hns.
+  unfold p_vardecl. comb.
+  rewrite (p_comments_at toks k k _ _ _ H eq_refl). norm. apply at_cm in H.
+  destruct (p_tag_at0 toks (is_k KVar) _ k _ _ H eq_refl) as (t0 & _ & E0). rewrite E0; ifs; norm. apply at_cons in H.
+  rewrite (p_ident_at toks _ k _ _ _ H) by lia. norm. apply at_cm_cons in H.
+  destruct (p_tag_at toks (is_k Colon) _ k _ _ _ H eq_refl) as (t1 & _ & E1). rewrite E1; ifs; norm.
+  apply at_cm_cons in H.
+  rewrite (type_ok toks t _ _ (cm cg ++ kg :: restg) fuel (le_n _)) by side. norm. apply at_app in H.
+  rewrite (p_tag_no toks (is_k Semic) _ k _ _ _ H Hsg Hns).
+  unfold expect_error, push_err. norm. cbn [app].
+  rewrite Nat.sub_diag. unfold fxg_var, einfo, e_real, gap_err, msg_of_kind. cbv zeta. rewrite Hl. unfold x_ident, mkinfo. teq.
+Qed.
+
+Lemma vars_stmts_cmp vs b c6 rest : fol fol_cmp (flat_map fl_vardecl vs ++ fl_stmts b ++ cm c6 ++ RCurly :: rest).
+Proof.
+  destruct vs as [|v vs]; cbn [flat_map app].
+  - apply (fol_weaken stopper); [exact stopper_cmp|]. apply stmts_stopper. apply fol_here; reflexivity.
+  - unfold fl_vardecl at 1. rewrite <- !app_assoc. cbn [app]. apply fol_here; reflexivity.
+Qed.
+
+(* the fault is the `;` of a variable declaration *)
+Lemma body_var vs1 d1 d2 y d3 t vs2 b c6 k0 k rest fuel : k0 <= k ->
+  6 * (len (flat_map fl_vardecl vs1) + len (ffl_var d1 d2 y d3 t) + len (flat_map fl_vardecl vs2) + len (fl_stmts b)) + 13 <= fuel ->
+  else_oks b = true ->
+  at_ k (flat_map fl_vardecl vs1 ++ ffl_var d1 d2 y d3 t ++ flat_map fl_vardecl vs2 ++ fl_stmts b ++ cm c6 ++ RCurly :: rest) ->
+  fol gapfol (flat_map fl_vardecl vs2 ++ fl_stmts b ++ cm c6 ++ RCurly :: rest) ->
+  exists tk4, body_p fuel (mk k k0) =
+    POk (mk (k + len (flat_map fl_vardecl vs1) + len (ffl_var d1 d2 y d3 t) + len (flat_map fl_vardecl vs2) + len (fl_stmts b) + len c6 + 1) k0)
+        (x_vardecls (k - k0) vs1 ++ (fxg_var e_real d1 d2 y d3 t, k - k0 + len (flat_map fl_vardecl vs1))
+           :: x_vardecls (k - k0 + len (flat_map fl_vardecl vs1) + len (ffl_var d1 d2 y d3 t)) vs2,
+         (x_stmts (k - k0 + len (flat_map fl_vardecl vs1) + len (ffl_var d1 d2 y d3 t) + len (flat_map fl_vardecl vs2)) b, Some tk4)).
+Proof.
+  intros Hr Hf Hok H Hgap. unfold body_p. comb. pose proof (ffl_var_pos d1 d2 y d3 t) as Hvp.
+  pose proof (vardecls_steps toks vs1 k k0 _ fuel Hr ltac:(lia) H) as Hst1. apply at_app in H.
+  set (k1 := k + len (flat_map fl_vardecl vs1)) in *.
+  assert (Hst2 : steps (vardecl_ref toks fuel) (mk k1 k0) [(fxg_var e_real d1 d2 y d3 t, k1 - k0)] (mk (k1 + len (ffl_var d1 d2 y d3 t)) k0)).
+  { eapply steps_cons; [| |apply steps_nil].
+    - unfold vardecl_ref. comb. rewrite (fvardecl_ok fuel d1 d2 y d3 t k1 _ ltac:(lia) H Hgap). norm. reflexivity.
+    - cbn [pos]. lia. }
+  apply at_app in H. set (k2 := k1 + len (ffl_var d1 d2 y d3 t)) in *.
+  pose proof (vardecls_steps toks vs2 k2 k0 _ fuel ltac:(lia) ltac:(lia) H) as Hst3. apply at_app in H.
+  pose proof (steps_app _ _ _ _ _ _ Hst1 (steps_app _ _ _ _ _ _ Hst2 Hst3)) as Hst. cbn [app] in Hst.
+  pose proof (x_vardecls_len (k - k0) vs1) as Hn1. pose proof (x_vardecls_len (k2 - k0) vs2) as Hn3.
+  destruct (vardecl_no toks b c6 rest (k2 + len (flat_map fl_vardecl vs2)) k0 fuel H) as (e1 & Ee1).
+  rewrite (many0_steps' _ _ _ _ _ fuel Hst Ee1) by (rewrite app_length; cbn [length]; lia). norm.
+  pose proof (stmts_ok toks b (k2 + len (flat_map fl_vardecl vs2)) k0 _ fuel ltac:(unfold k2, k1; lia) ltac:(lia) Hok H (fol_here (is_k RCurly) c6 RCurly rest eq_refl eq_refl)) as Hst4.
+  pose proof (x_stmts_len (k2 + len (flat_map fl_vardecl vs2) - k0) b) as Hn4. apply at_app in H.
+  match type of H with GrammarBase.at_ _ ?k3 _ =>
+    destruct (stmt_no_rcurly toks k3 k3 _ _ fuel H ltac:(lia)) as (e2 & Ee2);
+    assert (Ee2' : stmt_ref toks fuel (mk k3 k0) = PErr (set_refp e2 k0)) by (unfold stmt_ref; comb; now rewrite Ee2) end.
+  rewrite (many0_steps' _ _ _ _ _ fuel Hst4 Ee2' ltac:(lia)). norm.
+  destruct (p_tag_at toks (is_k RCurly) _ k0 _ _ _ H eq_refl) as (t4 & _ & E4). rewrite E4; ifs; norm.
+  exists t4. unfold k2, k1. teq.
+Qed.
+
+(* the fault is the `}` of the body: the statements end at `proc`, `type` or the end, and `expect(})` fails there *)
+Lemma body_close vs b k0 k rest fuel : k0 <= k -> 6 * (len (flat_map fl_vardecl vs) + len (fl_stmts b)) + 13 <= fuel ->
+  else_oks b = true -> at_ k (flat_map fl_vardecl vs ++ fl_stmts b ++ rest) -> fol is_glob rest ->
+  body_p fuel (mk k k0) =
+    POk {| pos := k + len (flat_map fl_vardecl vs) + len (fl_stmts b); refp := k0;
+           ebuf := [gap_err (MissingClosing 125%N) (k + len (flat_map fl_vardecl vs) + len (fl_stmts b) - k0 - 1)] |}
+        (x_vardecls (k - k0) vs, (x_stmts (k - k0 + len (flat_map fl_vardecl vs)) b, None)).
+Proof.
+  intros Hr Hf Hok H Hfol. unfold body_p. comb.
+  pose proof (vardecls_steps toks vs k k0 _ fuel Hr ltac:(lia) H) as Hst1.
+  pose proof (x_vardecls_len (k - k0) vs) as Hn1. apply at_app in H.
+  destruct (vardecl_no_glob b rest (k + len (flat_map fl_vardecl vs)) k0 fuel H Hfol) as (e1 & Ee1).
+  rewrite (many0_steps' _ _ _ _ _ fuel Hst1 Ee1 ltac:(lia)). norm.
+  assert (Hne : fol noelse rest) by (revert Hfol; apply fol_weaken; intros kd Hk; destruct kd; try discriminate; reflexivity).
+  pose proof (stmts_ok_g b (k + len (flat_map fl_vardecl vs)) k0 _ fuel ltac:(lia) ltac:(lia) Hok H Hne) as Hst2.
+  pose proof (x_stmts_len (k + len (flat_map fl_vardecl vs) - k0) b) as Hn2. apply at_app in H.
+  destruct Hfol as (c & kd & rest' & -> & Hs & Hg).
+  match type of H with GrammarBase.at_ _ ?k3 _ =>
+    destruct (stmt_no_glob k3 k3 _ _ _ fuel H Hs Hg ltac:(lia)) as (e2 & Ee2);
+    assert (Ee2' : stmt_ref toks fuel (mk k3 k0) = PErr (set_refp e2 k0)) by (unfold stmt_ref; comb; now rewrite Ee2) end.
+  rewrite (many0_steps' _ _ _ _ _ fuel Hst2 Ee2' ltac:(lia)). norm.
+  rewrite (p_tag_no toks (is_k RCurly) _ k0 _ _ _ H Hs) by (destruct kd; try discriminate; reflexivity).
+  unfold expect_error, push_err. norm. cbn [app]. unfold gap_err.
+  replace (k + len (flat_map fl_vardecl vs) - k0) with (k - k0 + len (flat_map fl_vardecl vs)) by lia. reflexivity.
+Qed.
+
+(* ---- the faulty declaration ---- *)
+Definition gapc_decl (d : fdecl) (rest : list kind) : Prop :=
+  match d with
+  | FProcC _ _ _ _ _ _ _ _ _ | FType _ _ _ _ _ => True
+  | _ => gapc (gk_decl d) (after_decl d rest)
+  end.
+
+Lemma fdecl_ok d k rest fuel : decl_ok (orig_decl d) = true -> 6 * len (ffl_decl d) + 14 <= fuel -> at_ k (ffl_decl d ++ rest) ->
+  fol is_glob rest -> gapc_decl d rest ->
+  p_gdecl toks fuel (mk k k) = POk (mk (k + len (ffl_decl d)) k) (fx_decl d).
+Proof.
+  intros Hok Hf H Hfol Hgap.
+  destruct d as [c1 c2 x c3 ps c4 c5 vs b c6|c1 c2 x c3 ps c4 c5 vs1 d1 d2 y d3 t vs2 b c6|c1 c2 x c3 ps c4 c5 vs b|c1 c2 x c3 t];
+    cbn [orig_decl decl_ok gapc_decl gk_decl after_decl] in Hok, Hgap; cbn [ffl_decl] in H.
+  - (* body *)
+    pose proof (prochead_len c1 c2 x c3 ps c4 c5) as Hh. cbn [ffl_decl] in Hf. rewrite !app_length in Hf. cbn [length] in Hf.
+    pose proof H as H0. rewrite <- app_assoc in H0. apply at_app in H0. flat_in H0.
+    destruct (body_stmts vs b c6 k (k + len (fl_prochead c1 c2 x c3 ps c4 c5)) rest fuel ltac:(lia) ltac:(lia) Hok H0 Hgap) as (t4 & Hbody).
+    rewrite <- app_assoc in H.
+    rewrite (prochead_ok c1 c2 x c3 ps c4 c5 _ k fuel _ _ _ _ H ltac:(lia) Hbody). norm.
+    cbn [fxg_decl]. cbv zeta. unfold mkinfo. cbn [ffl_decl]. rewrite !app_length. cbn [length]. teq.
+  - (* variable declaration *)
+    pose proof (prochead_len c1 c2 x c3 ps c4 c5) as Hh. cbn [ffl_decl] in Hf. rewrite !app_length in Hf. cbn [length] in Hf.
+    pose proof H as H0. rewrite <- app_assoc in H0. apply at_app in H0. flat_in H0.
+    cbn [gapc] in Hgap.
+    destruct (body_var vs1 d1 d2 y d3 t vs2 b c6 k (k + len (fl_prochead c1 c2 x c3 ps c4 c5)) rest fuel ltac:(lia) ltac:(lia) Hok H0 Hgap) as (t4 & Hbody).
+    rewrite <- app_assoc in H.
+    rewrite (prochead_ok c1 c2 x c3 ps c4 c5 _ k fuel _ _ _ _ H ltac:(lia) Hbody). norm.
+    cbn [fxg_decl]. cbv zeta. unfold mkinfo. cbn [ffl_decl]. rewrite !app_length. cbn [length]. teq.
+  - (* closing brace *)
+    pose proof (prochead_len c1 c2 x c3 ps c4 c5) as Hh. cbn [ffl_decl] in Hf. rewrite !app_length in Hf.
+    pose proof H as H0. rewrite <- app_assoc in H0. apply at_app in H0. flat_in H0.
+    pose proof (body_close vs b k (k + len (fl_prochead c1 c2 x c3 ps c4 c5)) rest fuel ltac:(lia) ltac:(lia) Hok H0 Hfol) as Hbody.
+    rewrite <- app_assoc in H.
+    rewrite (prochead_ok c1 c2 x c3 ps c4 c5 _ k fuel _ _ _ _ H ltac:(lia) Hbody). norm.
+    cbn [fxg_decl]. cbv zeta. unfold einfo, e_real, msg_of_kind, gap_err. cbn [ffl_decl]. rewrite !app_length. teq.
+  - (* type declaration *)
+    flat_in H.
+    assert (Hl : len (ffl_decl (FType c1 c2 x c3 t)) = len c1 + 1 + len c2 + 1 + len c3 + 1 + len (fl_type t)) by (cbn [ffl_decl]; flens; lia).
+    destruct Hfol as (cg & kg & restg & -> & Hsg & Hkg).
+    unfold p_gdecl, p_typedecl. comb.
+    rewrite (p_comments_at toks k k _ _ _ H eq_refl). norm. apply at_cm in H.
+    destruct (p_tag_at0 toks (is_k KType) _ k _ _ H eq_refl) as (t0 & _ & E0). rewrite E0; ifs; norm. apply at_cons in H.
+    rewrite (p_ident_at toks _ k _ _ _ H) by lia. norm. apply at_cm_cons in H.
+    destruct (p_tag_at toks (is_k EqT) _ k _ _ _ H eq_refl) as (t1 & _ & E1). rewrite E1; ifs; norm.
     apply at_cm_cons in H.
-    match type of H with at_ ?k1 _ =>
-      pose proof (vardecls_steps toks vs k1 k _ fuel ltac:(lia) ltac:(lia) H) as Hst1;
-      pose proof (x_vardecls_len (k1 - k) vs) as Hn1; apply at_app in H;
-      destruct (fvardecl_no b c6 rest (k1 + len (flat_map fl_vardecl vs)) k fuel H) as (e1 & Ee1) end.
-    rewrite (many0_steps' _ _ _ _ _ fuel Hst1 Ee1 ltac:(lia)). norm.
-    match type of H with at_ ?k2 _ =>
-      pose proof (fstmts_ok toks b k2 k _ fuel ltac:(lia) ltac:(lia) Hok H (fol_here (is_k RCurly) c6 RCurly rest eq_refl eq_refl) Hgap) as Hst2;
-      pose proof (fx_stmts_len (k2 - k) b) as Hn2; apply at_app in H end.
-    match type of H with at_ ?k3 _ =>
-      destruct (stmt_no_rcurly toks k3 k3 _ _ fuel H ltac:(lia)) as (e2 & Ee2);
-      assert (Ee2' : stmt_ref toks fuel (mk k3 k) = PErr (set_refp e2 k)) by (unfold stmt_ref; comb; now rewrite Ee2) end.
-    rewrite (many0_steps' _ _ _ _ _ fuel Hst2 Ee2' ltac:(lia)). norm.
-    destruct (p_tag_at toks (is_k RCurly) _ k _ _ _ H eq_refl) as (t4 & _ & E4). rewrite E4; ifs; norm.
-    rewrite !Nat.sub_diag. cbn [fx_decl x_sep fl_sep length]. unfold mkinfo. rewrite Hl. fteq.
+    rewrite (type_ok toks t _ _ (cm cg ++ kg :: restg) fuel (le_n _)) by side. norm. apply at_app in H.
+    rewrite (p_tag_no toks (is_k Semic) _ k _ _ _ H Hsg) by (destruct kg; try discriminate; reflexivity).
+    unfold expect_error, push_err. norm. cbn [app].
+    rewrite Nat.sub_diag. cbn [fxg_decl]. unfold einfo, e_real, gap_err, msg_of_kind. rewrite Hl. unfold x_ident, mkinfo. teq.
 Qed.
 
 (* ---- the program ---- *)
@@ -133,19 +371,22 @@ Proof.
   unfold prog_ok, orig_prog in Hok. cbn [a_decls fp_pre fp_decl fp_post] in Hok.
   rewrite forallb_app in Hok. cbn [forallb] in Hok. apply andb_prop in Hok. destruct Hok as [Hok1 Hok23].
   apply andb_prop in Hok23. destruct Hok23 as [Hok2 Hok3].
-  unfold after_prog in Hgo. cbn [fp_decl fp_post fp_ceof] in Hgo.
+  unfold after_prog, gk_prog in Hgo. cbn [fp_decl fp_post fp_ceof] in Hgo.
   unfold fflatten in *. cbn [fp_pre fp_decl fp_post fp_ceof] in *. rewrite !app_length, cm_length in *. flat_in H.
   pose proof (gap_decl_lt d) as Hdpos.
-  assert (Hgap : fol gapfol (after_decl d (flat_map fl_decl post ++ cm ceof ++ [Eof]))).
-  { apply gap_open_fol; [|exact Hgo]. destruct d as [c1 c2 x c3 ps c4 c5 vs b c6]. cbn [after_decl].
-    apply (proj2 after_stopper). apply fol_here; reflexivity. }
+  pose proof (decls_glob post ceof) as Hglob.
+  assert (Hgap : gapc_decl d (flat_map fl_decl post ++ cm ceof ++ [Eof])).
+  { destruct d as [c1 c2 x c3 ps c4 c5 vs b c6|c1 c2 x c3 ps c4 c5 vs1 d1 d2 y d3 t vs2 b c6|c1 c2 x c3 ps c4 c5 vs b|c1 c2 x c3 t];
+      cbn [gapc_decl]; try exact I.
+    - apply gapc_open; [|exact Hgo]. cbn [after_decl]. apply (proj2 after_stopper). apply fol_here; reflexivity.
+    - cbn [gk_decl gapc after_decl] in *. apply gap_open_fol'; [apply vars_stmts_cmp | exact Hgo]. }
   rewrite p_program_eq. comb.
   pose proof (gdecls_steps toks pre 0 0 _ fuel (le_n _) Hok1 ltac:(lia) H) as Hst1.
   apply at_app in H. cbn [Nat.add] in H, Hst1. rewrite Nat.sub_diag in Hst1.
   assert (Hst2 : steps (gdecl_ref toks fuel) (mk (len (flat_map fl_decl pre)) 0) [(fx_decl d, len (flat_map fl_decl pre))]
                    (mk (len (flat_map fl_decl pre) + len (ffl_decl d)) 0)).
   { eapply steps_cons; [| |apply steps_nil].
-    - unfold gdecl_ref. comb. rewrite (fdecl_ok d _ (flat_map fl_decl post ++ cm ceof ++ [Eof]) fuel Hok2 ltac:(lia) H Hgap).
+    - unfold gdecl_ref. comb. rewrite (fdecl_ok d _ (flat_map fl_decl post ++ cm ceof ++ [Eof]) fuel Hok2 ltac:(lia) H Hglob Hgap).
       norm. rewrite Nat.sub_0_r. reflexivity.
     - cbn [pos]. lia. }
   apply at_app in H.
@@ -162,12 +403,12 @@ Proof.
   destruct (at_length toks _ _ H) as [Hlen|[Hx _]]; [|apply (f_equal (@length _)) in Hx; rewrite app_length in Hx; cbn in Hx; lia].
   rewrite app_length, cm_length in Hlen. cbn [length] in Hlen.
   match goal with |- context [?a <? length toks] => replace (a <? length toks) with false by (symmetry; apply Nat.ltb_ge; lia) end.
-  norm. unfold fexpected. cbn [fp_pre fp_decl fp_post]. unfold mkinfo. fteq.
+  norm. unfold fxg_prog. cbn [fp_pre fp_decl fp_post]. unfold mkinfo. fteq.
 Qed.
 
 End FProg.
 
-(* ---- C03, syntax faults (family A), tree level: the parser returns the mandated tree with its ONE error ---- *)
+(* ---- C03, syntax faults, tree level: the parser returns the mandated tree with its ONE error ---- *)
 Theorem fparse p toks : fprog_ok p = true -> map tk toks = fflatten p ++ [Eof] -> parse toks = Done (fexpected p).
 Proof.
   intros Hok H. unfold parse.
